@@ -29,7 +29,7 @@ def run_canaries(prop, tier, jobs=None):
     info = {"registered": len(load(prop)), "run": 0, "detected": 0, "missed": []}
     code = 0
     for c in cans:
-        rc, ev = run_property(prop, tier, [(c["file"], c["old"], c["new"])], jobs, c.get("only"), quiet=True)
+        rc, ev = run_property(prop, tier, [(c["file"], c["old"], c["new"])], jobs, c.get("only"), quiet=True, instances=c.get("instances"))
         msgs = (ev or {}).get("coverage", {}).get("messages", [])
         if rc == 3 and any("text to replace occurs" in m for m in msgs):
             # the tree was edited where the canary applies: the canary says nothing about this tree
